@@ -97,6 +97,9 @@ def lanelets_hit_by(sp, ids, table=None):
 QUERY_SHAPES = [["rect", 2.0, 1.0, 0.0, 0.0, 0], ["rect", 1.0, 3.0, 0.0, 0.0, 0], ["rect", 3.0, 1.0, 0.0, 0.0, 0.7], ["rect", 2.0, 2.0, 0.0, 0.0, math.pi / 4],
                 ["circle", 0.75, 0.0, 0.0], ["circle", 1.25, 0.0, 0.0], ["circle", 2.25, 0.0, 0.0],
                 ["poly", [[-1.0, -0.5], [1.0, -0.5], [0.0, 1.0]]], ["poly", [[-1.0, -1.0], [1.0, -1.0], [1.0, 1.0], [0.0, 0.0], [-1.0, 1.0]]],
+                # non-convex polygon whose centroid lies outside it (a "C" open to the right); placed at anchor (12, 0.25) it surrounds the start of
+                # the narrow lanelet 4 without touching it, and its centroid lies on that lanelet
+                ["poly", [[-4.0, -2.25], [1.0, -2.25], [1.0, -1.25], [-3.0, -1.25], [-3.0, 1.25], [1.0, 1.25], [1.0, 2.25], [-4.0, 2.25]]],
                 # shape groups whose members lie apart, so that for many anchors only one member reaches a lanelet (union semantics)
                 ["group", [["rect", 2.0, 1.0, 0.0, 0.0, 0], ["rect", 1.0, 1.0, 3.0, 4.25, 0]]],
                 ["group", [["poly", [[-1.0, -0.5], [1.0, -0.5], [0.0, 1.0]]], ["rect", 1.0, 1.0, -4.0, 0.25, 0], ["rect", 0.5, 0.5, 0.0, -3.25, 0]]]]
